@@ -317,7 +317,8 @@ def r3_purge(ctx):
     ctx.check({"received_messages", "sent_messages"} <= set(clears), "RepliconClient::set_status/purges-both-queues", site_of(ss),
               "set_status clears only %s when leaving the connected state" % sorted(clears))
     for fld, bb in clears.items():
-        g = required_outcomes(F, ss, bb)
+        from flow import is_next_switch as _ins
+        g = [x for x in required_outcomes(F, ss, bb) if not _ins(ss, x[1])]
         conds = []
         for (sbb, c, o) in g:
             if c["kind"] == "boolcall":
